@@ -84,6 +84,7 @@ fn value_side<T: Encodable + Decodable + PartialEq + Debug>(r: &Report, ty: &'st
 /// byte-side oracle for one string
 fn byte_side<T: Encodable + Decodable + PartialEq + Debug>(r: &Report, ty: &'static str, b: &[u8]) -> String {
     r.trans(1);
+    crate::engine::crash::crumb(ty, b);
     let res = guard(|| -> Result<bool, String> {
         match deserialize_partial::<T>(b) {
             Err(_) => {
